@@ -306,7 +306,7 @@ pub fn run(case: &str, input: &str) -> String {
         return "bad-case".into();
     }
     let api = f[0].to_string();
-    let tmp = TempDir::new("c03");
+    let tmp = Scratch::new("c03");
     let root = tmp.path().join("root");
     if materialise(&root, &es).is_err() {
         return "bad-case".into();
